@@ -28,6 +28,10 @@ func sel(r0, r1, s0, v0, s1, v1 int, def bool) op {
 	return o
 }
 
+// inDefer marks the operation as performed by a deferred call that runs because of runtime.Goexit.
+func inDefer(o op) op { o.X = true; return o }
+func ngo() op         { return base("ngo") }
+
 func scn(caps []int, start []int, gs ...[]op) *chanmodel.Scenario {
 	if start == nil {
 		start = []int{}
@@ -64,6 +68,12 @@ func Classics() []*chanmodel.Scenario {
 		scn([]int{1}, []int{1, 2}, []op{recv(0), recv(0)}, []op{send(0, 95), goexit(false)}, []op{send(0, 96), goexit(true)}),
 		// everybody asleep except a sleeper: no deadlock report until the timer fired
 		scn([]int{0}, []int{1}, []op{recv(0)}, []op{sleep(20), send(0, 97)}),
+		// a goroutine that called Goexit is parked inside a deferred call: it still counts as a goroutine, and the
+		// program is not deadlocked while somebody can wake it
+		scn([]int{0, 0}, []int{1}, []op{sleep(2), ngo(), send(0, 111), recv(1), ngo()}, []op{inDefer(recv(0))}),
+		scn([]int{0}, []int{1, 2}, []op{sleep(3), ngo(), recv(0), sleep(1), ngo(), recv(0), ngo()}, []op{inDefer(send(0, 112))}, []op{sleep(1), inDefer(send(0, 113))}),
+		// a deferred call panics during Goexit and nothing recovers: the program ends with that panic
+		scn([]int{0}, []int{1}, []op{recv(0)}, []op{sleep(1), inDefer(base("panic"))}),
 		// select parked on several queues, woken through one; the other registration must vanish
 		scn([]int{0, 0}, []int{1, 2}, []op{sel(0, 1, -1, 0, -1, 0, false), sel(0, 1, -1, 0, -1, 0, true)}, []op{sleep(1), send(0, 101)}, []op{sleep(3), sel(-1, -1, 1, 102, -1, 0, true)}),
 	}
@@ -99,6 +109,10 @@ func CallbackClassics() []*chanmodel.Scenario {
 		withCbs(scn([]int{0}, []int{1}, []op{recv2(0), sel(-1, -1, 0, 53, -1, 0, true)}, []op{recv2(0)}), chanop(cls(0), true)),
 		// the same JavaScript object handed to exposed functions again and again, mutated in between
 		withCbs(scn([]int{0}, nil, []op{recv2(0)}), chanmodel.Callback{Kind: "echoobj"}, chanmodel.Callback{Kind: "echoobj"}, chanmodel.Callback{Kind: "echoobj"}, chanop(send(0, 61), false)),
+		// a callback panics and one of its deferred calls blocks or panics in turn: JavaScript sees the last panic, and
+		// later callbacks are not affected by what the earlier one left behind
+		withCbs(scn([]int{0}, nil, []op{sleep(9)}), chanmodel.Callback{Kind: "chanop", Op: &op{K: "recv", C: 0, R: [2]int{-1, -1}, S: [2][2]int{{-1, 0}, {-1, 0}}}, Deferred: true}, chanmodel.Callback{Kind: "echo"}, chanop(ln(0), true)),
+		withCbs(scn([]int{1}, nil, []op{cls(0), sleep(9)}), chanmodel.Callback{Kind: "chanop", Op: &op{K: "close", C: 0, R: [2]int{-1, -1}, S: [2][2]int{{-1, 0}, {-1, 0}}}, Deferred: true}, chanmodel.Callback{Kind: "echoobj"}, chanop(ln(0), false)),
 		// exposing a function switches the deadlock report off
 		withCbs(scn([]int{0}, nil, []op{base("ident"), recv(0)}), chanmodel.Callback{Kind: "echo"}),
 	}
